@@ -334,12 +334,20 @@ class Fn:
         if self._parent is None:
             self._parent = {}
             self._byid = {}
+            alias = []
             for r in self.roots():
                 for n in walk(r):
                     if 'id' in n:
                         self._byid[n['id']] = n
+                    if n.get('alias_ids'):
+                        alias.append(n)
                     for k in kids(n):
                         self._parent[id(k)] = n
+            # a loop rewritten as a range-for stands for its original header: the CFG element of the header's initialisation is the loop being entered
+            for n in alias:
+                for i in n['alias_ids']:
+                    if i is not None:
+                        self._byid.setdefault(i, n)
 
     def parent(self, n):
         self._index()
